@@ -108,7 +108,8 @@ class C14(Check):
     real = ['rxsci.state.MemoryStore, Store, StoreManager, StateTopology, markers (current working tree)']
     stubs = ['the clients (operators) issuing the store calls', 'the scheduler interleaving them']
     assumptions = ['reads of deleted or never added slots, and writes of out-of-type values, are outside the statement and not generated',
-                   'iterate_state is used as a perturbation only (it must not change any later read)', 'del_map is not part of the statement']
+                   'iterate_state is a read of all slots: it must enumerate exactly the live indices (an operation on one index must not make another index appear)',
+                   'del_map is not part of the statement']
     probe_names = ('readd_after_delete', 'sparse_growth', 'descending_indices', 'type:int', 'type:uint', 'type:float', 'type:bool', 'type:obj',
                    'type:mapper', 'with_default', 'clients>=3', 'map_parent_deleted_then_new_index', 'extreme_values')
     quick_cap = 400000
@@ -265,8 +266,24 @@ class C14(Check):
                     if t == 'mapper':
                         freed_parent = True
                 elif k == 'iter':
-                    for _ in sm.iterate_state(ids[s]):
-                        pass
+                    # iterate reads every slot: it must enumerate exactly the live (added, not deleted) indices,
+                    # each once, flagged set/not-set as the model says, with the stored value when set
+                    seen = {}
+                    dup = False
+                    for item in sm.iterate_state(ids[s]):
+                        key_, val_, is_set = item
+                        idx = key_[0] if isinstance(key_, tuple) else key_
+                        dup = dup or idx in seen
+                        seen[idx] = (val_, is_set)
+                    exp_idx = sorted(m.live[s])
+                    if dup or sorted(seen) != exp_idx:
+                        fail('enumeration', t, {'op_number': n, 'live_indices': exp_idx, 'iterated': sorted(seen), 'duplicates': dup})
+                    else:
+                        for idx, (val_, is_set) in seen.items():
+                            ev = m.live[s][idx]
+                            if bool(is_set) != (ev is not NOTSET) or (ev is not NOTSET and not same(t, bool(val_) if t == 'bool' else val_, ev)):
+                                fail('enumeration', t, {'op_number': n, 'index': idx, 'expected': repr(ev), 'got': repr((val_, is_set))})
+                                break
                 elif k == 'add_map':
                     ret = sm.add_map(ids[s], key_of(i), mk_key(op['mk']))
                     in_use = [idx for par in m.live[s].values() for _, idx in par]
